@@ -209,7 +209,7 @@ func (u *hUniverse) randomOp(r *RNG) M {
 	case 6:
 		op = u.authOp(r, user, a, id, pick(r, authDeviations))
 	case 7:
-		op = u.regOp(r, user, a, id, pick(r, regDeviations[:16]))
+		op = u.regOp(r, user, a, id, pick(r, regDeviations[:18]))
 	case 10:
 		op = u.authOp(r, user, a, id, "userHandle.missing") // authenticate without a user handle
 	case 11:
